@@ -2,6 +2,9 @@
 
 from lcmsa import rules_bellman as bel
 from lcmsa import rules_eff as eff
+from lcmsa import rules_guard as guard
+from lcmsa import rules_imp as imp
+from lcmsa import rules_splat as splat
 from lcmsa import rules_kernel as ker
 from lcmsa import rules_per as per
 from lcmsa import rules_qa as qa
@@ -124,3 +127,23 @@ prop("C09", [eff.effects, eff.order_taint, sim.key_rules, bel.twins],
      filter={"R6.KEY": lambda o: o.key.startswith("KEY1"), "R14.SIB": lambda o: o.key.startswith(("EFF4", "R14:jit"))})
 PROPERTIES["C10"]["rules"] += [eff.order_taint]
 PROPERTIES["C10"]["explanation"] += " Order taint (R7): axis order never depends on names (alphabetical) or hash order."
+
+PROPERTIES["C04"]["rules"] += [sim.sim_flow]
+PROPERTIES["C04"].setdefault("filter", {})["R15.FLOW"] = lambda o: o.key.startswith(("FLOW:next-state", "FLOW:state-update", "FLOW:initial"))
+PROPERTIES["C04"]["explanation"] += " The transition row is selected by the agent's period-t states, choices and period (R15 next-state obligations)."
+
+PROPERTIES["C02"].setdefault("filter", {})["R15.FLOW"] = lambda o: o.key.startswith(("FLOW:value", "FLOW:policy", "AX6", "FLOW:continuous", "FLOW:data-space"))
+PROPERTIES["C03"].setdefault("filter", {})["R15.FLOW"] = lambda o: o.key.startswith(("FLOW:next-state", "FLOW:state-update", "FLOW:initial", "FLOW:states-stored", "FLOW:data-space"))
+PROPERTIES["C06"].setdefault("filter", {})["R15.FLOW"] = lambda o: o.key.startswith(("FLOW:value", "FLOW:continuous", "FLOW:data-space"))
+PROPERTIES["C13"].setdefault("filter", {})["R15.FLOW"] = lambda o: o.key.startswith(("FLOW:targets", "FLOW:frame", "FLOW:panel", "FLOW:states-stored", "FLOW:initial"))
+
+PROPERTIES["C12"]["rules"] += [imp.imports_resolve, splat.splat_families]
+PROPERTIES["C12"]["explanation"] += " Imports and attribute chains resolve in the installed distribution, read as source (R1). Families of mapped variables vs. arguments accepted by u_and_f, over usage classes (R11): known findings D4, D5, D10."
+
+PROPERTIES["C12"]["rules"] += [guard.grid_guards]
+PROPERTIES["C12"]["explanation"] += " Grid guards decided on a witness set; every division/log applied to grid fields is defined for all accepted witnesses (R12 G-domain): known finding D8."
+PROPERTIES["C16"]["rules"] += [guard.grid_guards]
+PROPERTIES["C16"].setdefault("filter", {})["R12.GUARD"] = lambda o: o.key.startswith("G:")
+PROPERTIES["C16"]["explanation"] += " Guards evaluated on 39 witness field triples (R12): every invalid triple is rejected, every valid one accepted, independent of how the conditions are spelled."
+
+PROPERTIES["C12"]["rules"] += [guard.filter_params_guard]
